@@ -265,6 +265,9 @@ func (c *CEnv) ident(name string) cv {
 					if f := call.Common().StaticCallee(); f != nil && f.Name() == name[1:] {
 						return cv{V: val, T: call.Type()}
 					}
+					if call.Common().IsInvoke() && call.Common().Method.Name() == name[1:] {
+						return cv{V: val, T: call.Type()}
+					}
 				}
 			}
 		}
